@@ -906,6 +906,7 @@ def preflight(seed, tier, known):
     import ural.tld_data as data
 
     stats = Stats()
+    real_data()  # cache the pristine bundled file before any run can rewrite the scratch copy
     rule_list = list(data.PUBLIC_SUFFIXES) + list(data.PRIVATE_SUFFIXES)
     rules = psl.RuleSet(rule_list)
     hosts = derive_hosts(rule_list)
